@@ -70,6 +70,9 @@ func (ex *Exec) goPanicStr(msg string) *goPanic {
 	} else {
 		v = Iface{T: types.Typ[types.String], V: ex.mkStr(msg)}
 	}
+	if os.Getenv("GOSYM_PANICTRACE") != "" {
+		fmt.Fprintf(os.Stderr, "PANIC runtime error: %s%s\n", msg, ex.where())
+	}
 	return &goPanic{val: v, msg: "runtime error: " + msg + ex.where()}
 }
 
@@ -117,6 +120,8 @@ type Shared struct {
 	Bounds    map[string]int
 	NowBase   int64
 	Deadline  time.Time
+	AllocBound int64
+	Property  string
 	FreshMs   int
 	fnInfos   syncMap
 }
@@ -124,7 +129,7 @@ type Shared struct {
 // Clone returns a copy with its own function-info cache.
 func (sh *Shared) Clone() *Shared {
 	return &Shared{Prog: sh.Prog, Pkgs: sh.Pkgs, InitAllow: sh.InitAllow, Noop: sh.Noop, Subst: sh.Subst, UFs: sh.UFs, RtErrType: sh.RtErrType,
-		FreshMs: sh.FreshMs, VerifT: sh.VerifT, LoopBound: sh.LoopBound, InstrBudget: sh.InstrBudget, Known: sh.Known, Bounds: sh.Bounds, NowBase: sh.NowBase, Deadline: sh.Deadline}
+		AllocBound: sh.AllocBound, Property: sh.Property, FreshMs: sh.FreshMs, VerifT: sh.VerifT, LoopBound: sh.LoopBound, InstrBudget: sh.InstrBudget, Known: sh.Known, Bounds: sh.Bounds, NowBase: sh.NowBase, Deadline: sh.Deadline}
 }
 
 type Exec struct {
@@ -177,6 +182,7 @@ type Exec struct {
 	prov      map[*term.T]provRec
 	nFresh    int
 	symCaps   int
+	nRep      int
 	// solver-stack reuse across consecutive paths of one worker (DFS alignment)
 	prevDecs  []int32
 	prevSigs  []uint64
@@ -264,6 +270,17 @@ func (ex *Exec) addPC(c *term.T) {
 	}
 }
 
+// notePC records a condition already asserted in the solver by enterDecision.
+func (ex *Exec) notePC(c *term.T) {
+	ex.pc = append(ex.pc, c)
+	ex.tb.Assume(c)
+	if ex.model != nil {
+		if v, ok := term.Eval(c, ex.model, ex.modelMemo); !ok || v == 0 {
+			ex.model = nil
+		}
+	}
+}
+
 func sigOf(t *term.T) uint64 {
 	if t == nil {
 		return 1
@@ -327,8 +344,7 @@ func (ex *Exec) decide(kind string, alts []*term.T) int {
 		ex.enterDecision(k, alts[ch])
 		ex.decisions = append(ex.decisions, int32(ch))
 		ex.forced = append(ex.forced, true)
-		ex.pc = append(ex.pc, alts[ch])
-		ex.tb.Assume(alts[ch])
+		ex.notePC(alts[ch])
 		return ch
 	}
 	ex.live = ex.live || k >= ex.common
@@ -422,8 +438,7 @@ func (ex *Exec) decide(kind string, alts []*term.T) int {
 	ex.enterDecision(k, alts[ch])
 	ex.decisions = append(ex.decisions, int32(ch))
 	ex.forced = append(ex.forced, len(feas) == 1)
-	ex.pc = append(ex.pc, alts[ch])
-	ex.tb.Assume(alts[ch])
+	ex.notePC(alts[ch])
 	return ch
 }
 
@@ -519,8 +534,7 @@ func (ex *Exec) concretize(t *term.T, what string) uint64 {
 			ex.enterDecision(k, c)
 			ex.decisions = append(ex.decisions, ch)
 			ex.forced = append(ex.forced, true)
-			ex.pc = append(ex.pc, c)
-			ex.tb.Assume(c)
+			ex.notePC(c)
 			if ch == 0 {
 				return v
 			}
@@ -539,11 +553,49 @@ func (ex *Exec) concretize(t *term.T, what string) uint64 {
 		ex.enterDecision(k, eq)
 		ex.decisions = append(ex.decisions, 0)
 		ex.forced = append(ex.forced, other == smt.Unsat)
-		ex.pc = append(ex.pc, eq)
-		ex.tb.Assume(eq)
+		ex.notePC(eq)
 		return v
 	}
 	panic(pathAbort{"budget", "concretize: too many values for " + what})
+}
+
+// representative fixes t to one feasible value chosen by the solver (an
+// under-approximation used only for large allocation lengths; counted in the evidence).
+func (ex *Exec) representative(t *term.T, what string) uint64 {
+	if t.Op == term.OConst {
+		return t.V
+	}
+	if !ex.live {
+		if len(ex.decisions) < ex.common {
+			panic(pathAbort{"realign", "representative inside a retained prefix"})
+		}
+		ex.live = true
+	}
+	var v uint64
+	if ex.model != nil {
+		if mv, ok := term.Eval(t, ex.model, ex.modelMemo); ok {
+			v = mv
+			ex.addPC(ex.tb.Eq(t, ex.tb.Const(int(t.W), v)))
+			ex.nRep++
+			return v
+		}
+	}
+	ex.sol.Push()
+	r := ex.sol.Check()
+	ex.nQueries++
+	if r != smt.Sat {
+		ex.sol.Pop()
+		panic(pathAbort{"assume", "infeasible at representative"})
+	}
+	vals, err := ex.sol.Values([]*term.T{t})
+	ex.sol.Pop()
+	if err != nil {
+		panic(pathAbort{"unknown", "model error at representative"})
+	}
+	v = vals[0]
+	ex.addPC(ex.tb.Eq(t, ex.tb.Const(int(t.W), v)))
+	ex.nRep++
+	return v
 }
 
 // ---------- constants ----------
@@ -712,7 +764,7 @@ func (ex *Exec) store(p Value, v Value) {
 		if a == nil {
 			panic(ex.goPanicStr("invalid memory address or nil pointer dereference"))
 		}
-		*a = copyVal(v)
+		storeInPlace(a, v)
 		return
 	case SymPtr:
 		tb := ex.tb
@@ -1023,6 +1075,24 @@ func (ex *Exec) runFrame(fr *frame) {
 				panic(pathAbort{"budget", "instruction budget exceeded" + ex.where()})
 			}
 			fr.lastInstr = in
+			if traceFn != "" && strings.Contains(fr.fn.String(), traceFn) {
+				fmt.Fprintf(os.Stderr, "TRACE %s: %s\n", fr.fn.Name(), in.String())
+				r := ex.visit(fr, in)
+				if v, ok := in.(ssa.Value); ok {
+					fmt.Fprintf(os.Stderr, "   %s = %s\n", v.Name(), dbgVal(ex.get(fr, v)))
+				}
+				switch r {
+				case kReturn:
+					fr.block = nil
+					return
+				case kJump:
+					jumped = true
+				}
+				if jumped {
+					break
+				}
+				continue
+			}
 			switch ex.visit(fr, in) {
 			case kReturn:
 				fr.block = nil
@@ -1154,6 +1224,9 @@ func (ex *Exec) visit(fr *frame, instr ssa.Instruction) int {
 		ex.runDefers(fr)
 	case *ssa.Panic:
 		v := ex.get(fr, in.X)
+		if os.Getenv("GOSYM_PANICTRACE") != "" {
+			fmt.Fprintf(os.Stderr, "PANIC %s%s\n", ex.panicMsg(v), ex.where())
+		}
 		panic(&goPanic{val: v, msg: ex.panicMsg(v) + ex.where()})
 	case *ssa.Send:
 		ch := ex.get(fr, in.Chan).(*Chan)
@@ -1428,13 +1501,31 @@ func (ex *Exec) makeSlice(fr *frame, in *ssa.MakeSlice) Value {
 			h.MakeSize(ex, ln, cp, in)
 		}
 	}
-	l := int64(ex.concretize(ln, "make len"))
+	if ln.Op != term.OConst && ex.sh.AllocBound > 0 {
+		// allocation obligation: a size computed from input stays within the stated bound
+		tb := ex.tb
+		ex.assert(tb.BAnd(tb.Cmp(term.OSle, tb.Const(64, 0), ln), tb.Cmp(term.OSle, ln, tb.Const(64, uint64(ex.sh.AllocBound)))), ex.sh.Property+".alloc-bounded")
+	}
+	var l int64
+	if ln.Op != term.OConst && !ex.branch(ex.tb.Cmp(term.OUle, ln, ex.tb.Const(64, 64))) {
+		// large symbolic length: one solver-chosen representative (stated under-approximation;
+		// the bound obligation above was decided for every value)
+		if !ex.branch(ex.tb.Cmp(term.OSle, ex.tb.Const(64, 0), ln)) {
+			panic(ex.goPanicStr("makeslice: len out of range"))
+		}
+		l = int64(ex.representative(ln, "make len"))
+	} else {
+		l = int64(ex.concretize(ln, "make len"))
+	}
 	var c int64
 	if cp.Op != term.OConst {
 		// symbolic capacity hint: the run-time check (len <= cap <= max) is decided, then the
 		// slice is allocated with cap == len (capacity is only observable through cap() and
 		// append aliasing; stated approximation)
 		tb := ex.tb
+		if ex.sh.AllocBound > 0 {
+			ex.assert(tb.BAnd(tb.Cmp(term.OSle, tb.Const(64, 0), cp), tb.Cmp(term.OSle, cp, tb.Const(64, uint64(ex.sh.AllocBound)))), ex.sh.Property+".alloc-bounded")
+		}
 		okc := tb.BAnd(tb.Cmp(term.OSle, tb.Const(64, uint64(l)), cp), tb.Cmp(term.OSle, cp, tb.Const(64, 1<<40)))
 		if !ex.branch(okc) {
 			panic(ex.goPanicStr("makeslice: cap out of range"))
@@ -1469,47 +1560,51 @@ func (ex *Exec) makeSlice(fr *frame, in *ssa.MakeSlice) Value {
 
 func (ex *Exec) sliceOp(fr *frame, in *ssa.Slice) Value {
 	x := ex.get(fr, in.X)
-	bound := func(v ssa.Value, def int) int {
+	tb := ex.tb
+	// bounds as 64-bit terms (nil = default)
+	term64 := func(v ssa.Value) *term.T {
 		if v == nil {
-			return def
+			return nil
 		}
-		t := ex.to64(ex.get(fr, v), v.Type())
-		if t.Op != term.OConst {
-			return int(int64(ex.concretize(t, "slice bound")))
+		return ex.to64(ex.get(fr, v), v.Type())
+	}
+	lo, hi, mx := term64(in.Low), term64(in.High), term64(in.Max)
+	// resolve checks the run-time bounds condition symbolically (one decision), then
+	// enumerates the in-range values of any symbolic bound (at most capacity+1 each)
+	resolve := func(length, capacity int, what string) (int, int, int) {
+		l, h, m := lo, hi, mx
+		if l == nil {
+			l = tb.Const(64, 0)
 		}
-		return int(int64(t.V))
+		if h == nil {
+			h = tb.Const(64, uint64(length))
+		}
+		if m == nil {
+			m = tb.Const(64, uint64(capacity))
+		}
+		ok := tb.BAnd(tb.Cmp(term.OSle, tb.Const(64, 0), l), tb.BAnd(tb.Cmp(term.OSle, l, h), tb.BAnd(tb.Cmp(term.OSle, h, m), tb.Cmp(term.OSle, m, tb.Const(64, uint64(capacity))))))
+		if !ex.branch(ok) {
+			panic(ex.goPanicStr(fmt.Sprintf("slice bounds out of range [%s:%s:%s] with capacity %d (%s)", idxStr(l), idxStr(h), idxStr(m), capacity, what)))
+		}
+		return int(ex.concretize(l, "slice low")), int(ex.concretize(h, "slice high")), int(ex.concretize(m, "slice max"))
 	}
 	switch c := x.(type) {
 	case Str:
-		lo := bound(in.Low, 0)
-		hi := bound(in.High, len(c.B))
-		if lo < 0 || hi < lo || hi > len(c.B) {
-			panic(ex.goPanicStr(fmt.Sprintf("slice bounds out of range [%d:%d] with length %d", lo, hi, len(c.B))))
-		}
-		return Str{B: c.B[lo:hi:hi]}
+		l, h, _ := resolve(len(c.B), len(c.B), "string")
+		return Str{B: c.B[l:h:h]}
 	case Slice:
-		lo := bound(in.Low, 0)
-		hi := bound(in.High, len(c.V))
-		max := bound(in.Max, cap(c.V))
-		if lo < 0 || hi < lo || max < hi || max > cap(c.V) {
-			panic(ex.goPanicStr(fmt.Sprintf("slice bounds out of range [%d:%d:%d] with capacity %d", lo, hi, max, cap(c.V))))
-		}
+		l, h, m := resolve(len(c.V), cap(c.V), "slice")
 		if c.V == nil {
 			return Slice{}
 		}
-		return Slice{V: c.V[lo:hi:max]}
+		return Slice{V: c.V[l:h:m]}
 	case *Value:
 		if c == nil {
 			panic(ex.goPanicStr("invalid memory address or nil pointer dereference"))
 		}
 		a := []Value((*c).(Array))
-		lo := bound(in.Low, 0)
-		hi := bound(in.High, len(a))
-		max := bound(in.Max, len(a))
-		if lo < 0 || hi < lo || max < hi || max > len(a) {
-			panic(ex.goPanicStr(fmt.Sprintf("slice bounds out of range [%d:%d:%d] with array length %d", lo, hi, max, len(a))))
-		}
-		return Slice{V: a[lo:hi:max]}
+		l, h, m := resolve(len(a), len(a), "array")
+		return Slice{V: a[l:h:m]}
 	}
 	panic(ex.unsupported(fmt.Sprintf("slice of %T", x)))
 }
@@ -1897,4 +1992,60 @@ func (ex *Exec) loadThroughLeaves(base []Value, idx *term.T, depth int) (*term.T
 		return nil, false
 	}
 	return ex.tb.Ite(idx.A, a, b), true
+}
+
+var traceFn = os.Getenv("GOSYM_TRACEFN")
+
+func dbgVal(v Value) string {
+	switch x := v.(type) {
+	case *term.T:
+		s := term.Sprint(x)
+		if len(s) > 80 {
+			s = s[:80]
+		}
+		return s
+	case Struct:
+		var sb strings.Builder
+		sb.WriteString("{")
+		for _, e := range x {
+			sb.WriteString(dbgVal(e) + ", ")
+		}
+		return sb.String() + "}"
+	case Slice:
+		return fmt.Sprintf("slice(len=%d,cap=%d)", len(x.V), cap(x.V))
+	case *Value:
+		if x == nil {
+			return "nilptr"
+		}
+		return fmt.Sprintf("&%p->%s", x, dbgVal(*x))
+	case Str:
+		if s, ok := concStr(x); ok {
+			return fmt.Sprintf("%q", s)
+		}
+		return fmt.Sprintf("str(len=%d)", len(x.B))
+	}
+	return fmt.Sprintf("%T", v)
+}
+
+// storeInPlace assigns v to the cell. Aggregates are written element-wise into the
+// existing backing cells, so pointers to fields/elements taken earlier stay valid
+// (memory semantics of `*p = T{...}`: go/ssa takes field addresses before the zeroing store).
+func storeInPlace(a *Value, v Value) {
+	switch x := v.(type) {
+	case Struct:
+		if cur, ok := (*a).(Struct); ok && len(cur) == len(x) {
+			for i := range x {
+				storeInPlace(&cur[i], x[i])
+			}
+			return
+		}
+	case Array:
+		if cur, ok := (*a).(Array); ok && len(cur) == len(x) {
+			for i := range x {
+				storeInPlace(&cur[i], x[i])
+			}
+			return
+		}
+	}
+	*a = copyVal(v)
 }
